@@ -1020,7 +1020,11 @@ pub fn pow<E: Copy, T: FastPow<E>>(
     base: TensorView<T>,
     exp: TensorView<E>,
 ) -> Result<Tensor<T>, OpError> {
-    if let Some(&exp) = exp.item() {
+    // Fast path for a single-element exponent. This is only valid if
+    // broadcasting with the exponent's shape does not add dimensions.
+    if exp.ndim() <= base.ndim()
+        && let Some(&exp) = exp.item()
+    {
         Ok(base.map_in(pool, |x| x.fast_pow(exp)))
     } else {
         binary_op(pool, base, exp, &|b: T, e: E| b.fast_pow(e))
